@@ -264,6 +264,7 @@ def lookup(ctx, R, body, rm, src_field, dst_field):
                     elif kind == 'call' and x is rm and direct: continue
                     else: other.append(bi)
         hit_bbs = {bi for bi, x in hits} | ({rm.bb} if direct else set())
+        src['hit_bbs'] = hit_bbs
         ctx.check(bool(hit_bbs) and not other and not (direct and hits), R + '/lookup/result-is-position', 'T-CARRY', body.name,
                   'the position is used other than as the `Some(position)` result of the search or as the index of the removal (bb%s)' % sorted(set(other)), site)
         a_st, a_call, sites = id_comparisons(ctx, body, lo)
@@ -418,8 +419,20 @@ def one_move(ctx, name, src_field, src_ty, dst_field, dst_ty):
     # ---- lookup: position of the element whose id equals the argument; None => Err before any mutation
     if not rm:
         ctx.bad(R + '/lookup/index-from-search', 'T-CARRY', body.name, 'no removal from self.%s, hence no lookup to check' % src_field, body.site())
+    found_sources = []
     for c in rm:
-        lookup(ctx, R, body, c, src_field, dst_field)
+        found_sources += lookup(ctx, R, body, c, src_field, dst_field) or []
+    # ---- only the stated error: an id that IS in the list is moved.  No Err-exit may be reachable (path-sensitively) without going
+    # through the search (a refusal decided before / apart from the lookup, seed C14-19), nor once the search has produced its position
+    if found_sources:
+        errs = body.err_exits()
+        headers = {src['lo'][1] for src in found_sources}
+        before = sorted(reach_x(body, [0], stop=headers) & errs)
+        after = sorted({e for src in found_sources for h in src.get('hit_bbs', ()) for e in reach_x(body, [h]) & errs})
+        ctx.counters['cfg_paths'] += 2
+        ctx.check(not before and not after, R + '/only-stated-error', 'T-ERRFLOW', body.name,
+                  'an Err-exit is reachable %s' % '; '.join(([('without searching self.%s for the id (bb%s)' % (src_field, before))] if before else []) +
+                                                          ([('after the id has been found (bb%s)' % after)] if after else [])), body.site())
     for c in pu:
         it = ctx.S.slice_operand(body, c.args[-1])
         if name == 'relax_constraint':
@@ -490,4 +503,4 @@ RELIES_ON = {'C05': ['C05.flags', 'C05.lists', 'C05.rule'],
 def check(ctx):
     one_move(ctx, 'relax_constraint', 'constraints', 'v1::Constraint', 'removed_constraints', 'v1::RemovedConstraint')
     one_move(ctx, 'restore_constraint', 'removed_constraints', 'v1::RemovedConstraint', 'constraints', 'v1::Constraint')
-    ctx.floor('C14.relax_constraint', 26); ctx.floor('C14.restore_constraint', 23)
+    ctx.floor('C14.relax_constraint', 27); ctx.floor('C14.restore_constraint', 24)
